@@ -77,6 +77,7 @@ type Op struct {
 	Delta  bool            `json:"delta,omitempty"`
 	SetMem bool            `json:"set_mem,omitempty"`
 	Stdin  bool            `json:"stdin,omitempty"`
+	Bind   bool            `json:"bind,omitempty"` // cpu-bind request: each instance owns its cores
 	Script cw.LambdaScript `json:"script,omitempty"`
 	Lines  int             `json:"lines,omitempty"`
 	// filled after the run
@@ -113,7 +114,7 @@ type xlat struct {
 }
 
 func (x xlat) widOf(id string) string {
-	c := x.w.Canon(id)
+	c := x.w.Canon(strings.TrimPrefix(id, "missing-"))
 	if w, ok := parseCanon(c); ok {
 		return w.coq()
 	}
@@ -135,7 +136,7 @@ type ckey struct {
 }
 
 func (x xlat) canonWid(id string) wid {
-	if w, ok := parseCanon(x.w.Canon(id)); ok {
+	if w, ok := parseCanon(x.w.Canon(strings.TrimPrefix(id, "missing-"))); ok {
 		return w
 	}
 	return wid{999, 999, 999}
@@ -268,7 +269,9 @@ type driver struct {
 	opi int
 	// live workloads: canonical -> real id
 	live map[string]string
-	snap *cw.Snapshot
+	// ops that created cpu-bound workloads (realloc of those depends on core scheduling the abstract contract does not model)
+	boundOps map[int]bool
+	snap     *cw.Snapshot
 }
 
 func errClass(err error) int {
@@ -294,10 +297,14 @@ func (d *driver) resolve(ids []string) []string {
 }
 
 func (d *driver) deployOpts(o *Op) *types.DeployOptions {
+	res := cw.CPUMem(float64(o.CPU)/100, o.Mem)
+	if o.Bind {
+		res = cw.CPUMemBind(float64(o.CPU)/100, o.Mem)
+	}
 	return &types.DeployOptions{
 		Name: "app", Entrypoint: &types.Entrypoint{Name: "web"}, Podname: podName(o.Pod), Image: "img",
 		Count: o.Count, DeployStrategy: "AUTO", NodeFilter: &types.NodeFilter{Podname: podName(o.Pod)},
-		Resources: cw.CPUMem(float64(o.CPU)/100, o.Mem), OpenStdin: o.Stdin,
+		Resources: res, OpenStdin: o.Stdin,
 	}
 }
 
@@ -308,6 +315,9 @@ func (d *driver) run(o Op, f *FaultSpec) *StepObs {
 	w := d.w
 	ctx := w.Ctx
 	obs := &StepObs{Op: o, Fault: f, Msgs: []string{}}
+	if o.Bind {
+		d.boundOps[o.Opi] = true
+	}
 	w.Quiesce()
 	w.IC.Reset()
 	norm := o.Kind == "create" || o.Kind == "lambda"
@@ -744,6 +754,9 @@ func (d *driver) randomOp(kinds []string) (Op, bool) {
 		o.Count = 1 + r.Intn(4)
 		o.CPU = []int64{50, 100, 200}[r.Intn(3)]
 		o.Mem = []int64{100, 200, 300, 700}[r.Intn(4)]
+		if r.Intn(3) == 0 {
+			o.Bind, o.CPU = true, 100
+		}
 	case "lambda":
 		o.Pod = r.Intn(2)
 		o.Count = 1 + r.Intn(3)
@@ -755,8 +768,11 @@ func (d *driver) randomOp(kinds []string) (Op, bool) {
 		o.Lines = r.Intn(3)
 		o.Script = cw.LambdaScript{LogsErr: r.Intn(6) == 0, AttachErr: r.Intn(6) == 0, WaitErr: r.Intn(6) == 0, ExitCode: []int64{0, 7}[r.Intn(2)]}
 	case "remove":
-		if len(live) == 0 {
-			return o, false
+		if len(live) == 0 || r.Intn(8) == 0 {
+			// a workload that does not exist: refused without any fault
+			o.IDs = []string{"99.n0.0"}
+			o.Force = true
+			return o, true
 		}
 		o.IDs = pick(1 + r.Intn(3))
 		o.Force = r.Intn(3) != 0
@@ -770,6 +786,9 @@ func (d *driver) randomOp(kinds []string) (Op, bool) {
 			return o, false
 		}
 		o.IDs = pick(1)
+		if w, ok := parseCanon(o.IDs[0]); ok && d.boundOps[w.Op] {
+			return o, false
+		}
 		o.CPU = []int64{0, 50, -50, 100}[r.Intn(4)]
 		o.Mem = []int64{0, 100, -50, -100, 5000}[r.Intn(5)]
 	case "replace":
@@ -790,6 +809,12 @@ func (d *driver) randomOp(kinds []string) (Op, bool) {
 		o.Node = 6 + r.Intn(3)
 		o.Pod = r.Intn(2)
 		o.CPU, o.Mem = 400, 1000
+		switch r.Intn(5) {
+		case 0: // a node name that is (probably) registered already: refused without any fault
+			o.Node = r.Intn(6)
+		case 1: // a pod that does not exist
+			o.Pod = 5
+		}
 	case "removenode":
 		if len(nodes) == 0 {
 			return o, false
@@ -812,9 +837,17 @@ func (d *driver) setup(h *history, npods, nodesPerPod int, mem int64) {
 	}
 }
 
+// setupSmall: one pod, one node with 4 cores (the cheapest world for fault enumeration).
+func (d *driver) setupSmall(h *history) {
+	d.opi++
+	h.Steps = append(h.Steps, d.run(Op{Kind: "addpod", Opi: d.opi, Pod: 0}, nil))
+	d.opi++
+	h.Steps = append(h.Steps, d.run(Op{Kind: "addnode", Opi: d.opi, Pod: 0, Node: 0, CPU: 400, Mem: 1000}, nil))
+}
+
 func newDriver(t *testing.T, rng *rand.Rand, strict bool) *driver {
 	w := cw.New(t, cw.Options{StrictRemove: strict})
-	return &driver{t: t, w: w, rng: rng, live: map[string]string{}}
+	return &driver{t: t, w: w, rng: rng, live: map[string]string{}, boundOps: map[int]bool{}}
 }
 
 func tagsOf(h *history) (map[string]any, bool) {
